@@ -34,7 +34,7 @@ LEVEL_NOTE = ('Trusted: numpy, the physical constants in periodictable.constants
 SHARDS = {'quick': 4, 'thorough': 16}
 TIMEOUT = {'quick': 300, 'thorough': 2400}
 ASSUMPTIONS = ['thermal/cold range taken as wavelength 0.05..50 Angstrom (energy 0.03..33000 meV)',
-               'densities 1e-3..25 g/cm^3, density factors k and count factors c in 1e-3..1e4, all positive',
+               'densities 1e-3..25 g/cm^3 (10 %: 1e-15..1e-3), density factors k in 1e-2..1e2 (15 %: 1e-12..1e12), count factors c in 1e-3..1e4, all positive',
                'tolerance 1e-10 relative, with the absolute floor of DESIGN 3.7 for the two clipped-difference outputs '
                '(incoherent SLD: 1e-7*(|rho_re|+rho_im); incoherent cross section: 1e-13*(coh+abs+inc))',
                'cancellation floor: the real SLD may differ by 1e-13*sqrt(re^2+im^2+inc^2) and the coherent cross section by '
@@ -281,6 +281,8 @@ def _family(ctx, index, G, uni, table):
         k = uni.edep[index % nedep]
         items[rng.randrange(len(items))] = (k, G.draw_count(rng))
     rho = _log_uniform(rng, 1e-3, 25.0)
+    if rng.random() < 0.1:
+        rho = _log_uniform(rng, 1e-15, 1e-3)     # gases down to the residual gas of an evacuated flight tube
     r = rng.random()
     if r < 0.08:
         rho = rng.choice([1, 2, 3, 5, 7, 11, 19])        # int densities
@@ -301,7 +303,7 @@ def _family(ctx, index, G, uni, table):
         'index': index,
         'atoms': G.items_text(items),
         'density': rho,
-        'k': _log_uniform(rng, 1e-2, 1e2),
+        'k': _log_uniform(rng, 1e-2, 1e2) if rng.random() < 0.85 else _log_uniform(rng, 1e-12, 1e12),
         'wavelength': wl,
         'wavelength_type': wl_type,
         'base': _variant(rng, G, uni, table, items, 'base'),
